@@ -59,18 +59,25 @@ class Prop:
             return {}
         with open(os.path.join(ctx.wdir, "ops.txt"), "w") as f:
             f.write("\n".join(ops) + "\n")
-        impl = {}
-        for prof, exe in (("release", ctx.exe_release), ("relchk", ctx.exe_relchk)):
-            impl[prof] = ctx.run_all([exe], ops, self.per_op_timeout)
+        from concurrent.futures import ThreadPoolExecutor
+        jobs = {}
+        with ThreadPoolExecutor(max_workers=6) as ex:
+            for prof, exe in (("release", ctx.exe_release), ("relchk", ctx.exe_relchk)):
+                jobs[("impl", prof)] = ex.submit(ctx.run_all, [exe], ops, self.per_op_timeout)
+                if self.use_oracle:
+                    jobs[("oracle", prof)] = ex.submit(ctx.run_all, [exe, "--oracle"], ops, self.per_op_timeout)
+            if ctx.driver:
+                jobs[("model", "release")] = ex.submit(ctx.run_all, [ctx.driver], ops, self.per_op_timeout)
+                if self.profile_sensitive:
+                    jobs[("model", "relchk")] = ex.submit(ctx.run_all, [ctx.driver, "--checked"], ops, self.per_op_timeout)
+        impl = {prof: jobs[("impl", prof)].result() for prof in ("release", "relchk")}
         model = None
         if ctx.driver:
-            model = {"release": ctx.run_all([ctx.driver], ops, self.per_op_timeout)}
-            model["relchk"] = (ctx.run_all([ctx.driver, "--checked"], ops, self.per_op_timeout)
-                               if self.profile_sensitive else model["release"])
+            model = {"release": jobs[("model", "release")].result()}
+            model["relchk"] = jobs[("model", "relchk")].result() if self.profile_sensitive else model["release"]
         oracle = {}
         if self.use_oracle:
-            for prof, exe in (("release", ctx.exe_release), ("relchk", ctx.exe_relchk)):
-                oracle[prof] = ctx.run_all([exe, "--oracle"], ops, self.per_op_timeout)
+            oracle = {prof: jobs[("oracle", prof)].result() for prof in ("release", "relchk")}
         classes = {}
         nontrivial = set()
         dis = 0
